@@ -43,6 +43,8 @@ class ParseHarness:
         self.holes = list(params["holes"])
         self.tok = _tokenizer()
 
+    restrict_domain = True
+
     def variables(self):
         return [(f"c{i}", "int") for i in range(len(self.holes))]
 
@@ -51,6 +53,12 @@ class ParseHarness:
         for c in cells:
             if not valid_cell(c):
                 return None
+        if self.p.get("domain") == "finite":
+            for c in cells:
+                if not docs.in_finite(c):
+                    return None
+            # hashing site ahead (DESIGN 2.7): let the solver enumerate the finite alphabet now
+            cells = [env.realize(c) for c in cells]
         for i, k in enumerate(self.p.get("classes") or []):
             if not docs.in_class(cells[i], k):
                 return None
